@@ -1191,11 +1191,19 @@ func Run(spec *Spec, workdir string) (res *Result) {
 	os.MkdirAll(mroPath, 0755)
 	srcPath := path.Join(mroPath, "p.mro")
 	invSrc := spec.Mro
-	if i := strings.Index(spec.Mro, "\npipeline "); spec.Layout == "subdir" && i >= 0 {
-		os.MkdirAll(path.Join(mroPath, "pipes"), 0755)
-		writeFile(path.Join(mroPath, "pipes", "_stages.mro"), []byte(spec.Mro[:i+1]))
+	mroPaths := []string{mroPath}
+	if i := strings.Index(spec.Mro, "\npipeline "); (spec.Layout == "subdir" || spec.Layout == "sibling") && i >= 0 {
+		base := mroPath
+		if spec.Layout == "sibling" {
+			// MROPATH=<root>/mro:<root>/mro_internal - the first entry is a prefix of the
+			// second as a string, not as a path; the files are below the second
+			base = mroPath + "_internal"
+			mroPaths = []string{mroPath, base}
+		}
+		os.MkdirAll(path.Join(base, "pipes"), 0755)
+		writeFile(path.Join(base, "pipes", "_stages.mro"), []byte(spec.Mro[:i+1]))
 		invSrc = "@include \"_stages.mro\"\n" + spec.Mro[i:]
-		srcPath = path.Join(mroPath, "pipes", "main.mro")
+		srcPath = path.Join(base, "pipes", "main.mro")
 		writeFile(srcPath, []byte(invSrc))
 	} else {
 		writeFile(srcPath, []byte(spec.Mro))
@@ -1239,7 +1247,7 @@ func Run(spec *Spec, workdir string) (res *Result) {
 	d.rt = rt
 	core.VerifHook = d.hook
 	d.tr.Emit("RunBegin", "name", spec.Name)
-	ps, err := rt.InvokePipeline(invSrc, srcPath, d.psid, d.psdirArg(), []string{mroPath}, "v", map[string]string{}, nil)
+	ps, err := rt.InvokePipeline(invSrc, srcPath, d.psid, d.psdirArg(), mroPaths, "v", map[string]string{}, nil)
 	if err != nil {
 		res.Error = "invoke: " + err.Error()
 		return
@@ -1325,7 +1333,7 @@ func Run(spec *Spec, workdir string) (res *Result) {
 			return
 		}
 		d.rt = rt2
-		ps2, err := rt2.ReattachToPipestance(d.psid, d.psdirArg(), "", "", []string{mroPath}, "v",
+		ps2, err := rt2.ReattachToPipestance(d.psid, d.psdirArg(), "", "", mroPaths, "v",
 			map[string]string{}, true, false, ctx)
 		if err != nil {
 			res.Error = "reattach: " + err.Error()
@@ -1823,8 +1831,12 @@ func (d *Driver) checkInvocations() {
 	}
 	defer os.RemoveAll(defsDir)
 	writeFile(path.Join(defsDir, "p.mro"), []byte(defs))
-	if d.spec.Layout != "subdir" {
+	mroPaths := []string{mroPath}
+	if d.spec.Layout == "sibling" {
+		mroPaths = []string{mroPath, mroPath + "_internal"}
+	} else if d.spec.Layout != "subdir" {
 		mroPath = defsDir
+		mroPaths = []string{mroPath}
 	}
 	// (with the sub-directory layout the stages are in a file of their own: the recorded
 	// invocation must compile under the pipestance's own MROPATH)
@@ -1846,11 +1858,11 @@ func (d *Driver) checkInvocations() {
 			d.res.InvBad = append(d.res.InvBad, inst+": "+why+" | "+strings.ReplaceAll(string(b), "\n", " "))
 		}
 		var p syntax.Parser
-		if _, _, _, err := p.ParseSourceBytes(b, path.Join(f.Path, "_invocation"), []string{mroPath}, false); err != nil {
+		if _, _, _, err := p.ParseSourceBytes(b, path.Join(f.Path, "_invocation"), mroPaths, false); err != nil {
 			bad("does not compile: " + err.Error())
 			continue
 		}
-		data, err := core.InvocationDataFromSource(b, []string{mroPath})
+		data, err := core.InvocationDataFromSource(b, mroPaths)
 		if err != nil {
 			bad("cannot be read back: " + err.Error())
 			continue
